@@ -123,6 +123,8 @@ static void hex_faces(HexK &m) {
   hquad(m, 0, 1, 2, 3); hquad(m, 7, 6, 5, 4); hquad(m, 1, 0, 4, 5); hquad(m, 2, 1, 5, 6); hquad(m, 3, 2, 6, 7); hquad(m, 0, 3, 7, 4);
 }
 // B_HEX's halfface list: (F0,F1) are opposite, but (F2,F3) are adjacent -- NOT in convention order; add_cell(.., true) has to reorder
+// the same six halffaces in convention order (F0,F1 | F5,F3 | F4,F2): accepted as is, also without topology check
+static inline std::vector<HFH> hex_list0_ordered() { return vec6(hf(FH(0), 1), hf(FH(1), 1), hf(FH(5), 1), hf(FH(3), 1), hf(FH(4), 1), hf(FH(2), 1)); }
 static inline std::vector<HFH> hex_list0() { return vec6(hf(FH(0), 1), hf(FH(1), 1), hf(FH(2), 1), hf(FH(3), 1), hf(FH(4), 1), hf(FH(5), 1)); }
 // the five further faces of B_HEX2's second hex on top of F1 = (7,6,5,4): F6..F10
 static void hex2_faces(HexK &m) {
@@ -231,12 +233,12 @@ HS_FN void check_orientation_cell(const HexK &m, const HSnap &s, int c, int th, 
     }
   }
 }
-static void check_orientation_helpers(const HexK &m, const HSnap &s) {
+static void check_orientation_helpers(const HexK &m, const HSnap &s, int only = -1) {
   const int th = hprobe_below(2 * s.nF);
   const unsigned char o = v_nondet_u8();
   const unsigned char o1 = v_nondet_u8(), o2 = v_nondet_u8();
   v_assume(o1 < 6 && o2 < 6);
-  for (int c = 0; c < s.nC; ++c) if (!s.cdel[c]) check_orientation_cell(m, s, c, th, o, o1, o2);
+  for (int c = 0; c < s.nC; ++c) if (!s.cdel[c] && (only < 0 || c == only)) check_orientation_cell(m, s, c, th, o, o1, o2);
 }
 
 // is_boundary helpers on the hexahedral kernel vs brute force (halfface probe symbolic)
@@ -329,8 +331,8 @@ HS_FN void check_hex_vertices_cell(const HexK &m, const HSnap &s, int c) {
   v_assert(hs_cell_edge_between(s, c, hv[2], hv[6]), "C16 hex_vertices 2-6 joined by a cell edge");
   v_assert(hs_cell_edge_between(s, c, hv[3], hv[5]), "C16 hex_vertices 3-5 joined by a cell edge");
 }
-static void check_hex_vertices(const HexK &m, const HSnap &s) {
-  for (int c = 0; c < s.nC; ++c) if (!s.cdel[c]) check_hex_vertices_cell(m, s, c);
+static void check_hex_vertices(const HexK &m, const HSnap &s, int only = -1) {
+  for (int c = 0; c < s.nC; ++c) if (!s.cdel[c] && (only < 0 || c == only)) check_hex_vertices_cell(m, s, c);
 }
 
 // sheet circulators; centre and direction enumerated (the constructors sort), target symbolic
@@ -374,16 +376,16 @@ static void check_sheet_iters(const HexK &m, const HSnap &s, int rlo, int rhi) {
 // parts: bit0 convention, bit1 orientation helpers, bit2 boundary, bit3 navigation, bit4 hex_vertices, bit5 sheet circulators;
 // [rlo,rhi) = range of reference halffaces for the navigation / halfface-sheet parts (sharding)
 enum { P_CONV = 1, P_ORI = 2, P_BND = 4, P_NAV = 8, P_HV = 16, P_SHEET = 32, P_ALL = 63 };
-static void check_hex_all(const HexK &m, unsigned parts = P_ALL, int rlo = 0, int rhi = 2 * HXF) {
+static void check_hex_all(const HexK &m, unsigned parts = P_ALL, int rlo = 0, int rhi = 2 * HXF, int only = -1) {   // only >= 0: per-cell parts for that cell only
   HSnap s; hs_take(m, s);
   v_assert(!s.overflow, "C16 harness snapshot capacity");
   if (s.overflow) return;
   if (!check_shape(m, s)) return;
-  if (parts & P_CONV) for (int c = 0; c < s.nC; ++c) if (!s.cdel[c]) check_convention(s, c);
-  if (parts & P_ORI) check_orientation_helpers(m, s);
+  if (parts & P_CONV) for (int c = 0; c < s.nC; ++c) if (!s.cdel[c] && (only < 0 || c == only)) check_convention(s, c);
+  if (parts & P_ORI) check_orientation_helpers(m, s, only);
   if (parts & P_BND) check_boundary(m, s);
   if (parts & P_NAV) check_navigation(m, s, rlo, rhi);
-  if (parts & P_HV) check_hex_vertices(m, s);
+  if (parts & P_HV) check_hex_vertices(m, s, only);
   if (parts & P_SHEET) check_sheet_iters(m, s, rlo, rhi);
 }
 
